@@ -408,7 +408,7 @@ def normal_harness(kind, ev):
         ensure(h, ctx, "C05.log_prob-shape", z3.BoolVal(tuple(P(lp).shape) == (B,)))
         for b in range(B):
             mu, ls = params(h, b)
-            ensure(h, ctx, "C05.log_prob-is-gaussian-density", P(lp)[b] == gaussian_lp(list(px[b].reshape(-1)), mu, ls))
+            ensure(h, ctx, "C05.log_prob-is-gaussian-density", P(lp)[b] == gaussian_lp(list(np.asarray(px[b], dtype=object).reshape(-1)), mu, ls))
         ok_type = isinstance(mean, torch.Tensor)
         ensure(h, ctx, "C05.mean-is-tensor", z3.BoolVal(ok_type), meta={"type": type(mean).__name__})
         if ok_type:
@@ -435,7 +435,7 @@ def normal_harness(kind, ev):
                 used = set(); ok = True
                 rows = [(i, j) for i in range(B) for j in range(2)] if h.c is not None else [(0, j) for j in range(2)]
                 for (i, j) in rows:
-                    el_ = (ps[i, j] if h.c is not None else ps[j]).reshape(-1)
+                    el_ = np.asarray(ps[i, j] if h.c is not None else ps[j], dtype=object).reshape(-1)
                     mu, ls = params(h, i)
                     rws = set()
                     for k in range(n):
@@ -597,7 +597,7 @@ def mg1_harness():
 
 
 def density_harnesses(tier):
-    hs = [normal_harness("StandardNormal", [2]), normal_harness("StandardNormal", [2, 2]), normal_harness("DiagonalNormal", [2]), normal_harness("DiagonalNormal", [2, 2]),
+    hs = [normal_harness("StandardNormal", []), normal_harness("DiagonalNormal", []), normal_harness("StandardNormal", [2]), normal_harness("StandardNormal", [2, 2]), normal_harness("DiagonalNormal", [2]), normal_harness("DiagonalNormal", [2, 2]),
           normal_harness("ConditionalDiagonalNormal", [2]), normal_harness("ConditionalDiagonalNormal", [1, 2]),
           bernoulli_harness(1), bernoulli_harness(2), lotka_harness(), mg1_harness()]
     return hs
